@@ -91,6 +91,26 @@ CLAIMED = {
         technique='effect + alias analysis; abstract interpretation into '
                   'set-builder summaries with bounded equivalence; '
                   'structural worklist-closure conditions'),
+    'C14': dict(
+        text='Kripke is interpreted abstractly on top of the DiGraph '
+             'primitives (C13). The constructor is summarised as its paths '
+             '(conditions, resulting fields) and compared with the '
+             'documented constructor on ~7000 argument tuples (relations '
+             'with <=3 edges over 3 nodes, non-total relations, labels for '
+             'non-states, S0 outside S): it succeeds exactly on total '
+             'relations, labels every state, restricts S0, and copies every '
+             'label set (alias analysis). labels(s)/next(s) raise '
+             'RuntimeError on a non-state. clone/get_substructure are '
+             'summarised as constructor calls whose four arguments are '
+             'compared with the specification on a family of labelled '
+             'structures and all node subsets; effect/alias analysis for '
+             'the original.',
+        ref='3-C14',
+        note='trusted: DiGraph primitives as verified by C13; bounded '
+             'comparison (<=3 states); Python dict/set semantics',
+        technique='abstract interpretation into path summaries and '
+                  'constructor-argument provenance + alias/effect analysis; '
+                  'bounded equivalence of the extracted summary'),
     'C15': dict(
         partial=True,
         text='(1) get_fair_states is summarised by abstract interpretation '
